@@ -129,6 +129,29 @@ class Word(Sym):
         return f"word.{self.case}"
 
 
+class Part(Sym):
+    """The first character ('head') or the remainder ('tail') of a word, with the case applied to it."""
+    def __init__(self, which: str, case: str = 'id'):
+        self.which, self.case = which, case
+
+    def __repr__(self) -> str:
+        return f"word.{self.which}.{self.case}"
+
+
+def _merge_parts(items: t.List[Sym]) -> t.List[Sym]:
+    """head + tail of one word is the word again, in the case the two pieces add up to."""
+    out: t.List[Sym] = []
+    for it in items:
+        if out and isinstance(out[-1], Part) and out[-1].which == 'head' and isinstance(it, Part) and it.which == 'tail':
+            h, tl = out[-1].case, it.case
+            case = {('upper', 'lower'): 'title', ('upper', 'upper'): 'upper', ('lower', 'lower'): 'lower', ('id', 'id'): 'id'}.get(
+                (h, tl), f"first character {h}, remainder {'unchanged' if tl == 'id' else tl}")
+            out[-1] = Word(case)
+        else:
+            out.append(it)
+    return out
+
+
 class Lit(Sym):
     def __init__(self, s: str):
         self.s = s
@@ -191,6 +214,8 @@ def _case(term: t.Optional[Sym], c: str) -> t.Optional[Sym]:
         return None
     if isinstance(term, Word):
         return Word(c)
+    if isinstance(term, Part):
+        return Part(term.which, 'upper' if (c == 'title' and term.which == 'head') else ('lower' if c == 'title' else c))
     if isinstance(term, Lit):
         return Lit({'lower': term.s.lower(), 'upper': term.s.upper(), 'title': term.s.title()}[c])
     if isinstance(term, Join):
@@ -300,6 +325,17 @@ class JoinerEval:
                 if isinstance(sl, ast.Slice) and sl.lower is None and sl.step is None and isinstance(sl.upper, ast.Constant) and sl.upper.value == 1 \
                         and base.first is not None:
                     return Seq(base.first, None)
+            if isinstance(base, Word) and base.case == 'id':
+                sl = e.slice
+                if isinstance(sl, ast.Constant) and sl.value == 0:
+                    return Part('head')
+                if isinstance(sl, ast.Slice) and sl.step is None:
+                    lo = sl.lower.value if isinstance(sl.lower, ast.Constant) else None if sl.lower is None else '?'
+                    hi = sl.upper.value if isinstance(sl.upper, ast.Constant) else None if sl.upper is None else '?'
+                    if lo in (None, 0) and hi == 1:
+                        return Part('head')
+                    if lo == 1 and hi is None:
+                        return Part('tail')
             self.fail(e, "subscript not supported")
         if isinstance(e, (ast.List, ast.Tuple)):
             if len(e.elts) == 1 and not isinstance(e.elts[0], ast.Starred):
@@ -318,8 +354,8 @@ class JoinerEval:
                 self.fail(e, "sequence concatenation not supported")
             if isinstance(a, Seq) or isinstance(b, Seq):
                 self.fail(e, "mixed concatenation")
-            items = (a.items if isinstance(a, Cat) else [a]) + (b.items if isinstance(b, Cat) else [b])
-            return Cat(items)
+            items = _merge_parts((a.items if isinstance(a, Cat) else [a]) + (b.items if isinstance(b, Cat) else [b]))
+            return items[0] if len(items) == 1 and isinstance(items[0], Word) else Cat(items)
         if isinstance(e, ast.Call):
             fn = e.func
             if isinstance(fn, ast.Attribute):
@@ -371,7 +407,8 @@ class JoinerEval:
                     items.append(self.expr(v.value, env))
                 else:
                     self.fail(e, "format specification")
-            return Cat(items)
+            items = _merge_parts(items)
+            return items[0] if len(items) == 1 and isinstance(items[0], Word) else Cat(items)
         self.fail(e, "expression form not supported by the joiner evaluator")
 
     def map_over(self, it: Sym, target: ast.expr, elt: ast.expr, env: t.Dict[str, Sym], where: ast.AST) -> Sym:
@@ -1131,3 +1168,49 @@ def node_exprs_(n: Node) -> t.List[ast.AST]:
 def _walk_bound(root: ast.AST, nz: Normalizer, n: Node) -> t.Iterator[t.Tuple[ast.AST, t.Dict[str, str]]]:
     from ..family import walk_with_bindings
     return walk_with_bindings(root, nz, n)
+
+
+def rule_c20_r9(model: Model) -> RuleResult:
+    """Refusal is reserved for names that cannot be split into words: every ``raise`` of rename_field and of the splitter sits behind
+    the empty-word test.  (Styled forms - ``a-b``, ``aB`` - are legal inputs: converting them back to snake must work.)"""
+    r = RuleResult('C20-R9', "rename_field and the splitter refuse a name only behind the empty-word test", floor=2)
+    a = Anchors(model)
+    sp = a.splitter
+    seprx, _others = _separator_split(model, a)
+    for f in (a.rename, sp):
+        cfg = cfg_of(model, f)
+        nz = Normalizer(model, f, cfg)
+        r.instances += 1
+        r.analysed.add(f.qualname)
+        allowed: t.Set[int] = set()
+        if f is sp:
+            node0 = next((n for n in cfg.live_nodes() if n.ast is not None and any(y is seprx.call for y in ast.walk(n.ast))), None)
+            if node0 is not None:
+                parts = nz.expr(seprx.call, node0)
+                forms_true = {f"'' in {parts}", f"any(GEN(not ELEM({parts})))", f"any(GEN(ELEM({parts}) == ''))", f"any(GEN('' == ELEM({parts})))",
+                              f"any(GEN(not TRUTHY(ELEM({parts}))))"}
+                forms_false = {f"all({parts})", f"all(GEN(ELEM({parts})))", f"all(GEN(TRUTHY(ELEM({parts}))))", f"all(GEN(ELEM({parts}) != ''))",
+                               f"'' not in {parts}"}
+                for n in cfg.live_nodes():
+                    if n.kind != 'cond':
+                        continue
+                    text, pos = nz.literal(n.ast, n)
+                    edge = None
+                    if text in forms_true:
+                        edge = 'T' if pos else 'F'
+                    elif text in forms_false:
+                        edge = 'F' if pos else 'T'
+                    if edge is not None:
+                        allowed |= {m for m in _reach_from(cfg, n, edge)
+                                    if cfg.edge_dominates(n, edge, cfg.nodes[m])}
+        raises = [n for n in cfg.live_nodes() if n.kind == 'raise']
+        other = [n for n in raises if n.id not in allowed]
+        r.sample({f.qualname: {'raise statements': len(raises), 'not behind the empty-word test': [unparse(n.ast)[:60] for n in other if n.ast is not None]}})
+        if not other:
+            r.ok()
+        else:
+            n = other[0]
+            r.fail(f.qualname, f"`{unparse(n.ast)[:70] if n.ast is not None else 'raise'}` refuses names for another reason than an empty word",
+                   f.loc(n.ast) if n.ast is not None else f.loc(),
+                   "names that split into words perfectly well (the kebab or camel form of a field, converted back to snake) are refused")
+    return r
